@@ -5,12 +5,14 @@
      C01_mirror_agrees (FULL, false for the faithful model — see C01_refuted / C01_world_refuted):
        forall rs s m, srt s -> agree m s = true -> run_responders rs s = Some (s', out) ->
          exists m', client_run rs s m = Some m' /\ agree m' s' = true
+   (Merge: C01_merge_preserves_mirror below is unconditional apart from "Merge did not panic"; its EXISTS panic branch is
+   excluded for legal streams by Proofs/MergeProofs.merge_with_exists_no_panic, the RECENT branch is only exercised.)
    What is proved: the statement under the in-order-arrival guard (guard_all: an EXISTS for a message not yet in the
    snapshot carries a UID above every UID in it; a .SILENT store is the session's own), for every sequence of
    responders of every length, every snapshot and every mirror — `_partial`; the refutation of the unguarded statement
    by a witness on the responder level and on the full world model (the history replayed on the server; known finding). *)
 From Coq Require Import List NArith Bool.
-From Gluon Require Import Model.Responders Model.Session Proofs.MirrorProofs Proofs.SessionWitness.
+From Gluon Require Import Model.Responders Model.Session Proofs.MirrorProofs Proofs.MergeProofs Proofs.SessionWitness.
 Import ListNotations.
 Open Scope N_scope.
 
@@ -38,6 +40,13 @@ Theorem C01_count_shrinks_only_by_expunge : forall r s s' out,
   handle r s = Some (s', out) -> (length s' < length s)%nat -> exists k, out = [PExpunge k].
 Proof. exact count_shrinks_only_by_expunge. Qed.
 Print Assumptions C01_count_shrinks_only_by_expunge.
+
+(* response.Merge (what is actually written to the wire at the end of a flush): whenever the unmerged responses are a
+   legal stream for a client, the merged responses are legal too and leave the client's mirror in the same state *)
+Theorem C01_merge_preserves_mirror : forall rs rs' m m',
+  merge rs = Some rs' -> msteps m rs = Some m' -> msteps m rs' = Some m'.
+Proof. exact merge_preserves_mirror. Qed.
+Print Assumptions C01_merge_preserves_mirror.
 
 (* the unguarded statement is false for the faithful model *)
 Theorem C01_refuted :
